@@ -140,6 +140,33 @@ theorem marked_lookup_is_circ (n : Nat) (s : State) (q : Name) (d : Decl)
     (lookup (n + 1) s q).2 = .circ q := by
   simp [lookup, h₁, h₂, h₃]
 
+/-- A reference to any name whose build is in progress (a reference that closes a cycle at run time) is
+    reported as circular, wherever it stands among the dependencies and whatever else gets built on the
+    way: the marker of the pending build cannot be lost. -/
+theorem back_edge_reported (n : Nat) (s : State) (x q : Name) (dx dq : Decl)
+    (hx₁ : s.store x = none) (hx₂ : s.staging x = some dx) (hx₃ : s.marked x = false)
+    (hq₁ : s.store q = none) (hq₂ : s.staging q = some dq) (hq₃ : s.marked q = true)
+    (hq : q ∈ dx.deps) :
+    ∃ kids, (lookup (n + 2) s x).2 = .ok x dx.id kids ∧ Res.circ q ∈ kids := by
+  refine ⟨(foldDeps (lookup (n + 1))
+    { s with marked := Staged.set s.marked x true, log := Ev.enter x :: s.log } dx.deps).2, ?_, ?_⟩
+  · simp [lookup, hx₁, hx₂, hx₃]
+  · have hne : q ≠ x := by intro h; subst h; simp [hq₃] at hx₃
+    exact fold_reports q n dq dx.deps _ (by simp [Staged.set, hne, hq₃]) hq₁ hq₂ hq
+
+/-- a declaration that refers to itself is always reported as circular -/
+theorem self_reference_reported (n : Nat) (s : State) (q : Name) (d : Decl)
+    (h₁ : s.store q = none) (h₂ : s.staging q = some d) (h₃ : s.marked q = false) (hq : q ∈ d.deps) :
+    ∃ kids, (lookup (n + 2) s q).2 = .ok q d.id kids ∧ Res.circ q ∈ kids := by
+  refine ⟨(foldDeps (lookup (n + 1))
+    { s with marked := Staged.set s.marked q true, log := Ev.enter q :: s.log } d.deps).2, ?_, ?_⟩
+  · simp [lookup, h₁, h₂, h₃]
+  · exact fold_reports q n d d.deps _ (by simp [Staged.set]) h₁ h₂ hq
+
+example : ∃ kids, (lookup 3 (initState (fun _ => false) (table [("t:A", ⟨1, ["t:B", "t:A"]⟩)])) "t:A").2
+    = .ok "t:A" 1 kids ∧ Res.circ "t:A" ∈ kids :=
+  self_reference_reported 1 _ "t:A" ⟨1, ["t:B", "t:A"]⟩ rfl rfl rfl (by simp)
+
 /-! ### one file, one schema: location spellings -/
 
 /-- normalisation is idempotent -/
